@@ -417,7 +417,21 @@ pub fn fam_conflict_n(rng: &mut Rng, lo: usize, hi: usize) -> Cfg {
     let k = rng.range(lo, hi);
     for i in 0..k {
         let tag = c.term(&format!("Tag{}", i));
-        match rng.below(5) {
+        match rng.below(7) {
+            5 => {
+                // a nonterminal that derives itself: reduce/reduce (or accept/reduce at the top)
+                let q = c.nt(&format!("Selfish{}", i));
+                let z = c.term(&format!("W{}", i));
+                c.rule(q, vec![N(q)]);
+                c.rule(q, vec![T(z)]);
+                c.rule(s, vec![T(tag), N(q)]);
+            }
+            6 => {
+                // the start symbol derives itself: accept/reduce conflict
+                c.rule(s, vec![N(s)]);
+                let z = c.term(&format!("W{}", i));
+                c.rule(s, vec![T(tag), T(z)]);
+            }
             4 => {
                 let sub = if rng.chance(1, 2) { fam_lr1ish(rng) } else { fam_lr1ish_deep(rng) };
                 let st = embed(&mut c, &sub);
@@ -806,6 +820,182 @@ pub fn fam_lr1ish_deep(rng: &mut Rng) -> Cfg {
     c
 }
 
+/// Two to four small, deliberately odd patterns side by side under leading tags: the same
+/// nonterminal twice in a row, very long right-hand sides, many alternatives, unit chains, the
+/// same rule at two dot positions of one state, a nullable left-recursive start, optional
+/// separators inside left-recursive lists, shared suffixes, alternatives that differ only in
+/// their last token, nested optionals, one terminal in many roles.
+pub fn fam_micro(rng: &mut Rng) -> Cfg {
+    let mut c = Cfg::new("micro");
+    let top = c.nt("Top");
+    c.start = top;
+    let k = rng.range(2, 4);
+    for i in 0..k {
+        let tag = c.term(&format!("Tag{}", i));
+        let st = micro_pattern(&mut c, rng, i);
+        if rng.chance(1, 5) {
+            // no tag: the pattern sits directly under the start symbol
+            c.rule(top, vec![N(st)]);
+        } else {
+            c.rule(top, vec![T(tag), N(st)]);
+        }
+    }
+    c
+}
+
+fn micro_pattern(c: &mut Cfg, rng: &mut Rng, i: usize) -> usize {
+    let t = |c: &mut Cfg, n: &str| c.term(&format!("{}{}", n, i));
+    let a = c.nt(&format!("Pat{}", i));
+    match rng.below(13) {
+        0 => {
+            let b = c.nt(&format!("Twin{}", i));
+            let (x, y) = (t(c, "Tx"), t(c, "Ty"));
+            c.rule(a, vec![N(b), N(b)]);
+            if rng.chance(1, 2) {
+                c.rule(a, vec![N(b), N(b), N(b)]);
+            }
+            c.rule(b, vec![T(x)]);
+            c.rule(b, vec![T(y), N(b)]);
+        }
+        1 => {
+            let b = c.nt(&format!("Inner{}", i));
+            let ts: Vec<usize> = (0..6).map(|j| c.term(&format!("L{}_{}", i, j))).collect();
+            c.rule(a, vec![T(ts[0]), T(ts[1]), N(b), T(ts[2]), T(ts[3]), N(b), T(ts[4]), T(ts[5])]);
+            c.rule(b, vec![T(ts[rng.below(6)])]);
+            c.rule(b, vec![]);
+        }
+        2 => {
+            let n = rng.range(7, 10);
+            for j in 0..n {
+                let x = c.term(&format!("Alt{}_{}", i, j));
+                if j % 3 == 0 {
+                    c.rule(a, vec![T(x), N(a)]);
+                } else if j % 3 == 1 {
+                    c.rule(a, vec![T(x)]);
+                } else {
+                    let y = c.term(&format!("Alt{}_{}b", i, j));
+                    c.rule(a, vec![T(x), T(y)]);
+                }
+            }
+        }
+        3 => {
+            let depth = rng.range(3, 5);
+            let mut prev = a;
+            for d in 0..depth {
+                let n = c.nt(&format!("Unit{}_{}", i, d));
+                c.rule(prev, vec![N(n)]);
+                if rng.chance(1, 3) {
+                    let x = c.term(&format!("U{}_{}", i, d));
+                    c.rule(prev, vec![T(x), N(n)]);
+                }
+                prev = n;
+            }
+            let x = t(c, "Leaf");
+            c.rule(prev, vec![T(x)]);
+            if rng.chance(1, 2) {
+                let (l, r) = (t(c, "Lp"), t(c, "Rp"));
+                c.rule(prev, vec![T(l), N(a), T(r)]);
+            }
+        }
+        4 => {
+            // the same rule at two dot positions of one state
+            let b = c.nt(&format!("Rep{}", i));
+            let (x, y, z) = (t(c, "Rx"), t(c, "Ry"), t(c, "Rz"));
+            c.rule(a, vec![N(b)]);
+            c.rule(a, vec![T(x), N(b)]);
+            if rng.chance(1, 2) {
+                c.rule(b, vec![T(x), T(y), T(z)]);
+            } else {
+                c.rule(b, vec![T(x), T(x), T(y)]);
+                c.rule(a, vec![T(x), T(x), N(b), T(z)]);
+            }
+        }
+        5 => {
+            let it = c.nt(&format!("Elem{}", i));
+            let (x, y) = (t(c, "Ex"), t(c, "Ey"));
+            c.rule(a, vec![]);
+            c.rule(a, vec![N(a), N(it)]);
+            c.rule(it, vec![T(x)]);
+            c.rule(it, vec![T(y), N(a), T(x)]);
+        }
+        6 => {
+            let o = c.nt(&format!("Tail{}", i));
+            let (x, y, z) = (t(c, "Qx"), t(c, "Qy"), t(c, "Qz"));
+            c.rule(a, vec![T(x), N(a), N(o)]);
+            c.rule(a, vec![T(z)]);
+            c.rule(o, vec![]);
+            c.rule(o, vec![T(y)]);
+        }
+        7 => {
+            let f = c.nt(&format!("Post{}", i));
+            let (pre, post, at) = (t(c, "Pre"), t(c, "Pst"), t(c, "At"));
+            c.rule(a, vec![T(pre), N(a)]);
+            c.rule(a, vec![N(f)]);
+            c.rule(f, vec![N(f), T(post)]);
+            c.rule(f, vec![T(at)]);
+        }
+        8 => {
+            let sep = c.nt(&format!("Sep{}", i));
+            let it = c.nt(&format!("It{}", i));
+            let (comma, x, l, r) = (t(c, "Cm"), t(c, "Ix"), t(c, "Il"), t(c, "Ir"));
+            c.rule(a, vec![N(it)]);
+            c.rule(a, vec![N(a), N(sep), N(it)]);
+            c.rule(sep, vec![]);
+            c.rule(sep, vec![T(comma)]);
+            c.rule(it, vec![T(x)]);
+            c.rule(it, vec![T(l), N(a), T(r)]);
+        }
+        9 => {
+            let (b1, b2, suf) = (c.nt(&format!("ViaA{}", i)), c.nt(&format!("ViaB{}", i)), c.nt(&format!("Suffix{}", i)));
+            let (x, y, z) = (t(c, "Sx"), t(c, "Sy"), t(c, "Sz"));
+            c.rule(a, vec![N(b1)]);
+            c.rule(a, vec![N(b2)]);
+            c.rule(b1, vec![T(x), N(suf)]);
+            c.rule(b2, vec![T(y), N(suf)]);
+            c.rule(suf, vec![T(z)]);
+            c.rule(suf, vec![T(z), N(suf)]);
+            if rng.chance(1, 2) {
+                c.rule(b2, vec![T(y), N(suf), T(x)]);
+            }
+        }
+        10 => {
+            let n = rng.range(3, 5);
+            let ts: Vec<usize> = (0..n).map(|j| c.term(&format!("P{}_{}", i, j))).collect();
+            let (e1, e2) = (t(c, "EndA"), t(c, "EndB"));
+            let mut r1: Vec<Sym> = ts.iter().map(|x| T(*x)).collect();
+            let mut r2 = r1.clone();
+            r1.push(T(e1));
+            r2.push(T(e2));
+            c.rule(a, r1);
+            c.rule(a, r2);
+            if rng.chance(1, 2) {
+                let r3: Vec<Sym> = ts.iter().take(n - 1).map(|x| T(*x)).collect();
+                c.rule(a, r3);
+            }
+        }
+        11 => {
+            let (o1, o2, b) = (c.nt(&format!("OptA{}", i)), c.nt(&format!("OptB{}", i)), c.nt(&format!("Bit{}", i)));
+            let (x, y, z) = (t(c, "Nx"), t(c, "Ny"), t(c, "Nz"));
+            c.rule(a, vec![N(o1), T(z)]);
+            c.rule(o1, vec![]);
+            c.rule(o1, vec![N(b), N(o2)]);
+            c.rule(o2, vec![]);
+            c.rule(o2, vec![T(y)]);
+            c.rule(b, vec![T(x)]);
+        }
+        _ => {
+            // one terminal in many roles: atom, separator and terminator
+            let x = t(c, "Role");
+            let (l, r) = (t(c, "Ol"), t(c, "Or"));
+            let it = c.nt(&format!("Thing{}", i));
+            c.rule(a, vec![T(l), N(it), T(x), N(it), T(r), T(x)]);
+            c.rule(it, vec![T(x)]);
+            c.rule(it, vec![T(l), T(x), T(r)]);
+        }
+    }
+    a
+}
+
 /// Random structural mutation of a grammar (kiki itself filters out the conflicting results).
 pub fn mutate(c: &mut Cfg, rng: &mut Rng) -> &'static str {
     if c.rules.is_empty() {
@@ -996,7 +1186,7 @@ fn fam_compose(rng: &mut Rng) -> Cfg {
     c.start = s;
     let k = if big { rng.range(4, 7) } else { rng.range(2, 3) };
     for i in 0..k {
-        let which = rng.below(14);
+        let which = rng.below(15);
         let sub = base_family(rng, which);
         let tag = c.term(&format!("Mode{}", i));
         let st = embed(&mut c, &sub);
@@ -1022,6 +1212,7 @@ fn base_family(rng: &mut Rng, which: usize) -> Cfg {
         11 => fam_sharedprefix(rng),
         12 => fam_lr1ish(rng),
         13 => fam_lr1ish_deep(rng),
+        14 => fam_micro(rng),
         _ => fam_random(rng),
     }
 }
@@ -1030,10 +1221,10 @@ pub const N_FAMILIES: usize = 11;
 
 /// Families meant to be accepted by kiki (random ones are filtered by kiki).
 pub fn accepted_family(rng: &mut Rng) -> Cfg {
-    let w = rng.weighted(&[3, 4, 3, 4, 2, 2, 2, 2, 3, 3, 3, 3, 2, 3, 8, 3, 1]);
+    let w = rng.weighted(&[3, 4, 3, 4, 2, 2, 2, 2, 3, 3, 3, 3, 2, 3, 6, 8, 3, 1]);
     let mut c = match w {
-        0..=14 => base_family(rng, w),
-        15 => fam_compose(rng),
+        0..=15 => base_family(rng, w),
+        16 => fam_compose(rng),
         _ => fam_wide(rng),
     };
     // structural mutations: small deviations from the textbook shapes are where
